@@ -168,6 +168,9 @@ Poly Normaliser::norm(int t, bool fp) {
     }
   }
   else if (x.op == TT.OP_PIECE && !fp && x.k == 0) r = normTrunc(x.a[0], x.bytes);
+  else if (fp && x.a.size() == 2 && (op == "libm.cabs" || op == "libm.cabsf" || op == "libm.hypot" || op == "libm.hypotf")) { // |re + i im| = sqrt(re^2 + im^2) over the reals
+    Poly pa = norm(x.a[0], true), pb = norm(x.a[1], true); Poly sq = pmul(pa, pa); padd(sq, pmul(pb, pb), 1);
+    r = atom(polyAtom("sqrtpoly", sq, t, x.bytes)); }
   else if (op == "sitofp" || op == "fpext" || op == "fptrunc" || (op == "uitofp")) { r = norm(x.a[0], op != "sitofp" && op != "uitofp"); if (op == "fptrunc") { r = atom(t); } }
   else if (op == "reduce.add" && !fp) { for (int a : x.a) padd(r, norm(a, false), 1); }
   else if (op == "reduce.mul" && !fp) { r = pconst(Q(1)); for (int a : x.a) r = pmul(r, norm(a, false)); }
@@ -209,6 +212,7 @@ int Normaliser::mulCount(int t, std::unordered_map<int, int> &m) {
 }
 
 // ================================================================ EXACT canonicaliser
+extern std::unordered_map<int, uint64_t> *g_symOverride;
 static bool isCmpAtomT(int t) { const std::string &o = OPS.name(TT.t[t].op); return o.compare(0, 5, "icmp.") == 0 || o.compare(0, 5, "fcmp.") == 0 || TT.t[t].op == TT.OP_NOT; }
 static bool commutative(int op) { return op == TT.OP_ADD || op == TT.OP_MUL || op == TT.OP_AND || op == TT.OP_OR || op == TT.OP_XOR || op == TT.OP_FADD || op == TT.OP_FMUL; }
 int Canon::canon(int t) {
@@ -309,6 +313,30 @@ int Canon::canon(int t) {
       return false; };
     if (isCopysignPredHalf(f.a[1], f.a[0])) r = canon(TT.mk("libm.round", {f.a[0]}, 0, by));
     else if (isCopysignPredHalf(f.a[0], f.a[1])) r = canon(TT.mk("libm.round", {f.a[1]}, 0, by));
+  }
+  else if (op == "bit" && x.a.size() == 1 && TT.t[x.a[0]].op != TT.OP_SYM) {
+    // a single bit of a bit-manipulation expression over ONE small integer input (a mask widened, split or re-packed): decide by its
+    // truth table which input bit (or constant) it is
+    std::set<int> sy; { std::vector<int> st{x.a[0]}; std::set<int> seen; while (!st.empty()) { int u = st.back(); st.pop_back(); if (!seen.insert(u).second) continue; const Term &y = TT.t[u]; if (y.op == TT.OP_SYM) { sy.insert(u); continue; } if (y.op == TT.OP_PTR) continue; for (int a : y.a) st.push_back(a); } }
+    if (sy.size() == 1 && TT.t[*sy.begin()].bytes <= 2 && !TT.ns[TT.t[*sy.begin()].a[0]].fp) {
+      int sym = *sy.begin(); int nb = TT.t[sym].bytes * 8; uint64_t N = 1ULL << nb; bool ok = true; std::vector<uint8_t> tt(N);
+      std::unordered_map<int, uint64_t> ov; auto *saved = g_symOverride; g_symOverride = &ov;
+      for (uint64_t v = 0; v < N && ok; v++) { ov[sym] = v; std::unordered_map<int, uint64_t> em; uint64_t o; if (!evalBits(x.a[0], 0, em, o)) ok = false; else tt[v] = (o >> x.k) & 1; }
+      g_symOverride = saved;
+      if (ok) {
+        bool all0 = true, all1 = true; for (uint64_t v = 0; v < N; v++) { if (tt[v]) all0 = false; else all1 = false; }
+        if (all0) r = TT.cint(0, 1); else if (all1) r = TT.cint(1, 1);
+        else for (int j = 0; j < nb && r < 0; j++) { bool same = true, inv = true; for (uint64_t v = 0; v < N; v++) { bool bj = (v >> j) & 1; if (tt[v] != bj) same = false; if (tt[v] == bj) inv = false; }
+          if (same) r = TT.mk("bit", {sym}, j, 1); else if (inv) r = TT.mk(TT.OP_NOT, {TT.mk("bit", {sym}, j, 1)}, 0, 1); }
+      }
+    }
+  }
+  else if (x.op == TT.OP_SELECT && (x.bytes == 4 || x.bytes == 8) && ((TT.t[x.a[1]].op == TT.OP_C) != (TT.t[x.a[2]].op == TT.OP_C))) {
+    // a choice between a floating value and an integer-typed constant with the same bits (a zeroed lane): give the constant the floating type
+    int ci = TT.t[x.a[1]].op == TT.OP_C ? 1 : 2; int other = x.a[3 - ci]; const Term o = TT.t[other]; const std::string oo = OPS.name(o.op);
+    bool ofp = (o.op == TT.OP_SYM && TT.ns[o.a[0]].fp) || o.op == TT.OP_CF || o.op == TT.OP_FADD || o.op == TT.OP_FSUB || o.op == TT.OP_FMUL || o.op == TT.OP_FDIV || o.op == TT.OP_FNEG || o.op == TT.OP_FABS || o.op == TT.OP_SQRT || o.op == TT.OP_FMA || oo.compare(0, 5, "libm.") == 0;
+    if (ofp) { int64_t k = TT.t[x.a[ci]].k; double d; if (x.bytes == 4) { uint32_t u = (uint32_t)k; float f; memcpy(&f, &u, 4); d = f; } else memcpy(&d, &k, 8);
+      if (!std::isnan(d)) { std::vector<int> as = x.a; as[ci] = TT.cfp(d, x.bytes); r = canon(TT.mk(TT.OP_SELECT, as, 0, x.bytes)); } }
   }
   else if (x.op == TT.OP_SELECT && x.a[1] == x.a[2]) r = x.a[1];
   else if (x.op == TT.OP_SELECT && TT.t[x.a[0]].op == TT.OP_C) r = x.a[(TT.t[x.a[0]].k & 1) ? 1 : 2];
@@ -457,13 +485,14 @@ static bool libm2(const std::string &f, long double x, long double y, long doubl
 }
 static std::string libmBase(const std::string &op) { std::string f = op.substr(5); if (f.size() > 1 && f.back() == 'f' && f != "erf") { std::string g = f.substr(0, f.size() - 1); long double t; if (libm1(g, 0.5L, t) || libm2(g, 0.5L, 0.5L, t)) return g; } return f; }
 
+std::unordered_map<int, uint64_t> *g_symOverride = nullptr; // explicit values for input symbols (truth-table evaluation of small bit functions)
 bool g_evalOverflow = false; // a signed add/sub/mul/abs overflowed at the operation's width while evaluating: the point is not a defined execution of the scalar reference
 bool evalBits(int t, int point, std::unordered_map<int, uint64_t> &memo, uint64_t &out) {
   auto it = memo.find(t);
   if (it != memo.end()) { out = it->second; return true; }
   const Term &x = TT.t[t]; const std::string op = OPS.name(x.op); int by = x.bytes; uint64_t m = maskB(by);
   std::vector<uint64_t> v(x.a.size());
-  if (x.op == TT.OP_SYM) { out = symBits(x.a[0], x.k, point); memo[t] = out; return true; }
+  if (x.op == TT.OP_SYM) { if (g_symOverride) { auto ov = g_symOverride->find(t); if (ov != g_symOverride->end()) { out = ov->second & m; memo[t] = out; return true; } } out = symBits(x.a[0], x.k, point); memo[t] = out; return true; }
   if (x.op == TT.OP_C) { out = (uint64_t)x.k & m; memo[t] = out; return true; }
   if (x.op == TT.OP_CF) { out = fpToBits(TT.cfval(t), by); memo[t] = out; return true; }
   if (op == "nanbits") { out = (uint64_t)x.k & m; memo[t] = out; return true; }
